@@ -17,6 +17,9 @@ CHECKS["C01"] = dict(cat="proof", design="§3 C01",
 CHECKS["C03"] = dict(cat="proof", design="§3 C03",
     text="log of every group executed symbolically on angle-parametrised inputs X = rep(phi, n): acos/atan nodes are resolved against the input's own angle, then log(exp x) = x (angle < pi), log X = closed-form principal logarithm (rotation part phi*n for quaternions of either sign, inner MRPs, DCMs; translation parts J_l^-1 p) and M(exp(log X)) = M(X) (incl. shadow MRPs) are proved per entry; log(e) = 0 by exact constant evaluation; Euler log by delegation to the DCM log.",
     note="trusted: as C01/C02 plus acos(cos y)=y on [0,pi], atan(tan y)=y on (-pi/2,pi/2). Denominators on the path assumed non-zero = stated margin at the pi singularity (DCM) and SE(2) theta not a non-zero multiple of 2pi. exp(log X)=X is proved in two stages (log X = oracle; real exp of that value = X).")
+CHECKS["C05"] = dict(cat="proof", design="§3 C05",
+    text="so(3)/se(3)/se_2(3) Jacobians executed symbolically: J J^-1 = I (left and right), J_l = Ad_exp(x) J_r = J_r(-x), and column-by-column J_l e_i = vee(dM(exp x)/dx_i M^-1), J_r e_i = vee(M^-1 dM/dx_i) with the derivative taken by CasADi's AD of the real exp (series stubs differentiated by the chain rule) for theta in (0,2pi); theta=0 by exact evaluation; quaternion (left/right) and MRP kinematic Jacobians satisfy dM/dparam (J w) = M w^ / w^ M and q.(J w)=0 for all parameters.",
+    note="trusted: as C02 plus CasADi AD and the calculus of the series oracles (dual numbers). Real arithmetic.")
 CHECKS["C04"] = dict(cat="proof", design="§3 C04",
     text="Ad/ad/bracket of every group/algebra executed symbolically; (Ad_X y)^ = M(X) y^ M(X^-1), Ad homomorphism and inverse, ad = bracket = matrix commutator, antisymmetry, Jacobi, block-diagonal direct-sum ad, and Ad_exp(x) = expm(ad_x) in closed form (Rodrigues / Barfoot quartic) are proved per entry; wrong shapes and crashes of offered operations are violations.",
     note="trusted: as C01 plus the closed forms of expm(ad) and the theorem Ad_{exp A} = expm(ad_A) (used for SE_2(3)/Euler where exp ends in from_Matrix). Operations raising NotImplementedError are out of scope as the property states.")
